@@ -171,6 +171,7 @@ fn run(ctx: &Ctx) -> Run {
         if w == 0 {
             deterministic_corpus(run);
         }
+        let mut recent: Vec<(f64, f64, i32)> = Vec::new();
         for i in 0..per {
             let roll = rng.f();
             let (mut lon, lat, res, mut class): (f64, f64, i32, &str) = if roll < 0.5 {
@@ -200,6 +201,26 @@ fn run(ctx: &Ctx) -> Run {
                     }
                     run.count("primed_with_the_twin_cell");
                 }
+            }
+            if i % 16 == 11 {
+                // revisit pattern: this lookup, one to four earlier ones, this lookup again - immediately before it is judged
+                let _ = lookup(lon, lat, res);
+                for _ in 0..1 + rng.below(4) {
+                    if let Some((lo, la, r)) = recent.get(rng.usize(recent.len().max(1))).copied() {
+                        let _ = lookup(lo, la, r);
+                    }
+                }
+                let _ = lookup(lon, lat, res);
+                run.count("primed_with_a_revisit_pattern");
+            } else if i % 64 == 13 {
+                failed_call_history(&mut rng);
+                run.count("primed_with_rejected_calls");
+            }
+            if recent.len() < 8 {
+                recent.push((lon, lat, res));
+            } else {
+                let k = (i as usize / 3) % 8;
+                recent[k] = (lon, lat, res);
             }
             check_lookup(run, lon, lat, res, class, i % 4 == 0);
             // coordinate twins right after: longitude and latitude swapped, and the doubled / halved pair
